@@ -1,6 +1,7 @@
 """C14 - inbound size and volume limits."""
 FUNCTIONS = ['socket.Socket.handle_post_request', 'async_socket.AsyncSocket.handle_post_request',
-             'socket.Socket._websocket_handler', 'payload.Payload.decode',
+             'socket.Socket._websocket_handler', 'async_socket.AsyncSocket._websocket_handler',
+             'payload.Payload.decode',
              'payload.Payload.__init__']
 
 LEVEL_TEXT = ('handle_post_request (both servers) raises ContentTooLongError exactly when the declared '
